@@ -50,7 +50,13 @@ def cases(tier, seed):
             cfg["max_steplength"] = float(gen.pick(rng, [0.05, 0.1, 0.2, 0.5, 1.0, 2.0]))  # the user's cap on the step length
         e2e.vary_rare_parameters(rng, cfg)
         yield {"problem": ps, "cfg": cfg}
-    for i in range(200 if tier == "quick" else 6000):
+    for i in range(200 if tier == "quick" else 5000):
+        # 64 to 100 variables on objectives whose searches often end on their evaluation cap with the best trial not the last one
+        ps = gen.rand_spec(rng, ("rosenbrock", "rastrigin", "styblinski_tang", "oscillating", "qp_quartic", "ackley"), nmax=100, nmin=64,
+                           boxes=("none", "mixed", "boxed", "lower"), starts=("interior", "face"))
+        yield {"problem": ps, "cfg": {"jac": "callable", "maxcor": int(rng.integers(3, 21)), "maxls": int(gen.pick(rng, [2, 2, 3, 3, 5])), "maxiter": int(gen.pick(rng, [10, 30])),
+                                      "maxfun": int(gen.pick(rng, [25, 60, 15000])), "ftol": 0.0, "gtol": 1e-9, "cb": "never"}}
+    for i in range(400 if tier == "quick" else 8000):
         ps = gen.rand_spec(rng, ("qp", "qp_quartic", "qp_softplus", "rosenbrock"), nmax=6, boxes=("none", "none", "boxed", "lower"), starts=("interior", "face"), condmax=1e2)
         yield {"problem": ps, "probe_first": {"cond": float(np.exp(rng.uniform(0, 4))), "scale": float(10.0 ** rng.uniform(-3, 3)),
                                               "cut": gen.pick(rng, [{"maxfun": 2}, {"maxiter": 1}, {"maxfun": 3}, {"maxiter": 1, "maxls": 2}])},
